@@ -38,6 +38,38 @@ let mk_frame maxin =
                                    (if int_of_n cap <= int_of_n f_scratch then "S" else "H") in
           ((ret, String.concat "" (List.map (fun m -> show_msg [m]) outs), obs ^ "/" ^ b01 r'.fr_err), pipe')) }
 
+(* zlib encodings: deflate/inflate are Section variables of the Coq model; here they are instantiated by
+   the table the generator computed with the same libz (python zlib, Z_SYNC_FLUSH per Message, one stream
+   per gateway): stream state = number of Messages deflated / inflated so far. *)
+let mk_zframe enc maxin (table : bytes array) =
+  let bodies = Array.make (Array.length table + 1) [] in
+  let deflate ds _indep body =
+    let k = int_of_n ds in
+    if k < Array.length table then (bodies.(k) <- body; (n_of_int (k+1), table.(k)))
+    else failwith "deflate table exhausted" in
+  let inflate is _indep defl rawlen =
+    let k = int_of_n is in
+    if k < Array.length table && defl = table.(k) && int_of_n rawlen = List.length bodies.(k)
+    then (n_of_int (k+1), Some bodies.(k)) else (is, None) in
+  let oenc = n_of_int (1164862256 + enc) in
+  let s = ref (fs_init None) and r = ref (fr_init None) in
+  { q = (fun a -> s := fs_queue !s (bytes_of_hex a));
+    o = (fun maxb scr ->
+          let (s', w) = z_do_output (fun _ -> N0) deflate oenc false !s maxb scr in
+          s := s';
+          (w, Printf.sprintf "%d/%s/%d" (List.length s'.fs_q)
+                (match s'.fs_buf with None -> "-" | Some b -> string_of_int (List.length b)) (int_of_n s'.fs_off)));
+    i = (fun maxb scr pipe ->
+          let ((r', outs), pipe') = z_do_input N0 inflate maxin !r maxb scr pipe in
+          r := r';
+          let consumed = List.length pipe - List.length pipe' in
+          let ret = if consumed = 0 && r'.fr_err then "E" else string_of_int consumed in
+          let obs = match r'.fr_buf with
+            | None -> "-/0/-"
+            | Some (cap, got) -> Printf.sprintf "%d/%d/%s" (int_of_n cap) (List.length got)
+                                   (if int_of_n cap <= int_of_n f_scratch then "S" else "H") in
+          ((ret, String.concat "" (List.map (fun m -> show_msg [m]) outs), obs ^ "/" ^ b01 r'.fr_err), pipe')) }
+
 let mk_text eol =
   let s = ref ts_init and r = ref tr_init in
   { q = (fun a -> s := ts_queue !s (items a));
@@ -87,10 +119,14 @@ let () =
       let head = String.split_on_char ':' (String.sub line 0 p) in
       let body = String.sub line (p+1) (String.length line - p - 1) in
       let nth l i d = match List.nth_opt l i with Some x -> x | None -> d in
-      if (List.hd head).[0] = 'K' || List.hd head = "P" || (List.hd head = "F" && nth head 1 "0" <> "0") then
+      if (List.hd head).[0] = 'K' || List.hd head = "P" then
         Printf.printf "%d oracle-only\n" k   (* not modelled: the harness evaluates the end-to-end oracle only *)
       else
       let m = match List.hd head with
+        | "F" when nth head 1 "0" <> "0" ->
+            let tbl = nth head 3 "" in
+            mk_zframe (int_of_string (nth head 1 "0")) (n_of_int (int_of_string (nth head 2 "4294967295")))
+              (Array.of_list (if tbl = "" then [] else List.map bytes_of_hex (String.split_on_char ',' tbl)))
         | "F" -> mk_frame (n_of_int (int_of_string (nth head 2 "4294967295")))
         | "T" -> mk_text (bytes_of_hex (nth head 1 "0d0a"))
         | "R" -> mk_raw (n_of_int (int_of_string (nth head 1 "0"))) (n_of_int (int_of_string (nth head 2 "4294967295")))
